@@ -88,6 +88,12 @@ def placeholder_identity_obligations() -> list:
     return obs
 
 
+def _pub_ili(s):
+    """The ILI a result carries, as the public API shows it (placeholders included)."""
+    i = s.ili
+    return i.id if i is not None else None
+
+
 def expand_bounded(sess: Session):
     """Native stand-in: a lexicon L (five synsets linked to the taxonomy lexicon only through ILIs) expanded by the
     taxonomy lexicon of bounded/determinism.py - borrowed hypernyms/hyponyms against a reference computed from the
@@ -116,10 +122,10 @@ def expand_bounded(sess: Session):
             for rel in ('hypernym', 'hyponym'):
                 cases += 1
                 want = sorted((local.get(ili_of[t], '*INFERRED*'), ili_of[t]) for r, t in rels[src] if r == rel)
-                got = sorted((s.id, s._ili) for s in w.synset(uid).get_related(rel))
+                got = sorted((s.id, _pub_ili(s)) for s in w.synset(uid).get_related(rel))
                 if got != want:
                     bad.append({'synset': uid, 'relation': rel, 'got': got, 'expected': want})
-                got2 = sorted((s.id, s._ili) for ss in [w.synset(uid)] for k, v in ss.relations(rel).items() for s in v)
+                got2 = sorted((s.id, _pub_ili(s)) for ss in [w.synset(uid)] for k, v in ss.relations(rel).items() for s in v)
                 if got2 != want:
                     bad.append({'synset': uid, 'relation': rel, 'relations()': got2, 'expected': want})
                 if w0.synset(uid).get_related(rel):
@@ -127,11 +133,11 @@ def expand_bounded(sess: Session):
         # several placeholders in one result: the root concept's hyponyms c1 (i3) and c2 (i4) are both absent from v
         cases += 1
         wv = wn.Wordnet('v:1', expand='t:1')
-        got = sorted((s.id, s._ili) for s in wv.synset('v-1').hyponyms())
+        got = sorted((s.id, _pub_ili(s)) for s in wv.synset('v-1').hyponyms())
         want = [('*INFERRED*', 'i3'), ('*INFERRED*', 'i4')]
         if got != want:
             bad.append({'synset': 'v-1', 'relation': 'hyponym', 'got': got, 'expected': want})
-        got = sorted((s.id, s._ili) for s in wv.synset('v-1').get_related('hyponym'))
+        got = sorted((s.id, _pub_ili(s)) for s in wv.synset('v-1').get_related('hyponym'))
         if got != want:
             bad.append({'synset': 'v-1', 'get_related': got, 'expected': want})
         # closure() through placeholders = least fixed point of get_related (entities told apart by (id, ILI))
